@@ -104,6 +104,10 @@ class SynchronousDynamics(Dynamics):
             # fire any events posted for at or before this time
             nev = self.runPendingEvents(t)
 
+            # posted events leave the clock at their own times: restore it
+            # for the events of this timestep
+            self.setCurrentSimulationTime(t)
+
             # run all the stochastic and fixed-rate events
             evs = self.allEventsInTimestep(t)
             for (l, e, ef, name) in evs:
